@@ -364,7 +364,21 @@ def reader_key_list(repo: Repo) -> KeyList:
                         t = norm(inner.value.func.value)
                         val[t] = val[t] + [("attached", m, cond)]
                         ok = True
-                if not ok and any(isinstance(x, ast.Attribute) and x.attr == "_controller_keys" for x in ast.walk(st)):
+                # for n in <constant iterable>: T.append(<expression of n>)    is    T.extend([… for n in …])
+                if not ok and len(st.body) == 1 and isinstance(st.body[0], ast.Expr) and isinstance(st.body[0].value, ast.Call) \
+                        and isinstance(st.body[0].value.func, ast.Attribute) and st.body[0].value.func.attr == "append" and len(st.body[0].value.args) == 1 \
+                        and norm(st.body[0].value.func.value) in val and not st.orelse:
+                    t = norm(st.body[0].value.func.value)
+                    comp = ast.ListComp(elt=st.body[0].value.args[0], generators=[ast.comprehension(target=st.target, iter=st.iter, ifs=[], is_async=0)])
+                    ast.copy_location(comp, st)
+                    ast.fix_missing_locations(comp)
+                    v = ev(comp, cond)
+                    if v is not None:
+                        val[t] = val[t] + [(k, x, cond) for k, x, _ in v]
+                        ok = True
+                tracked_touched = any((isinstance(x, ast.Attribute) and x.attr == "_controller_keys") or (isinstance(x, ast.Name) and x.id in val)
+                                      for x in ast.walk(st))
+                if not ok and tracked_touched:
                     problems.append(f"loop over controllers not recognised {norm(st)[:80]}")
     run(fn.body, "")
     got = val.get(KEYS)
